@@ -418,6 +418,16 @@ def rule_x5(P, tables):
         obl.append({"rule": "X5", "inst": f"graph walk {fn} runs only inside {host.split('::')[-3]} after {guard_fn.split('::')[-1]} ({w['argument'][:60]})", "ok": ok})
         if not ok:
             findings.append(F("X5", f"X5|unguarded|{fn}", f"component-graph walk {fn} ({w['argument']}) can run without / before the acyclicity check {guard_fn}: a cyclic component reference makes it loop or recurse without bound", P.body_file_line(fn)))
+    # X5b: the guard must look at the same edges the walks follow: components of *every* source of a glyph
+    acc = t.get("all_sources_accessors", [])
+    partial = t.get("partial_accessors", [])
+    gr = P.reachable([guard_fn])
+    uses_all = [a for a in acc if a in gr]
+    uses_partial = [a for a in partial if a in gr]
+    ok = bool(uses_all) and not uses_partial
+    obl.append({"rule": "X5", "inst": f"{guard_fn.split('::')[-1]} derives component edges from every source ({[a.split('::')[-1] for a in uses_all]}), not from the default instance only", "ok": ok})
+    if not ok:
+        findings.append(F("X5", f"X5|guard-coverage|{guard_fn}", f"the acyclicity check {guard_fn} no longer looks at the components of every source of a glyph (all-sources accessors reached: {uses_all}; default-instance accessors reached: {uses_partial}) while the graph walks it protects follow components of all sources: a cycle that exists only in a non-default master passes the guard and the walks loop or recurse without bound", P.body_file_line(guard_fn)))
     return findings, obl, {"graph_walks": len(t.get("walks", []))}
 
 
